@@ -992,8 +992,39 @@ class MailExecutor(UnitsExecutor):
         return out
 
     # ------------------------------------------------------------ dispatch (router) --
+    def _map_as_genexp(self, n, st):
+        """list(map(f, xs)) / tuple(map(f, xs)) with the builtins: the consumer exhausts the map object, so the call is the
+        comprehension `list(f(x) for x in xs)` (same evaluation order, same exceptions).  Only this exact shape (one
+        iterable, no keywords, `list` / `tuple` / `map` not rebound); a bare map object that escapes is NOT a list and stays
+        unmodelled."""
+        try:
+            if not (isinstance(n.func, ast.Name) and n.func.id in ("list", "tuple") and len(n.args) == 1 and not n.keywords):
+                return None
+            m = n.args[0]
+            if not (isinstance(m, ast.Call) and isinstance(m.func, ast.Name) and m.func.id == "map" and len(m.args) == 2 and not m.keywords
+                    and not any(isinstance(a, ast.Starred) for a in m.args)):
+                return None
+            mod = self.module
+            for name in (n.func.id, "map"):
+                if st.lookup(name) is not None or name in mod.functions or name in mod.classes or name in mod.assigns or name in mod.imports:
+                    return None
+            var = "__map_item__"
+            gen = ast.GeneratorExp(elt=ast.Call(func=m.args[0], args=[ast.Name(id=var, ctx=ast.Load())], keywords=[]),
+                                   generators=[ast.comprehension(target=ast.Name(id=var, ctx=ast.Store()), iter=m.args[1], ifs=[], is_async=0)])
+            new = ast.Call(func=n.func, args=[gen], keywords=[])
+            for x in ast.walk(new):
+                if not hasattr(x, "lineno"):
+                    ast.copy_location(x, m)
+            ast.copy_location(new, n)
+            return new
+        except Exception:  # noqa  (not this shape)
+            return None
+
     def e_Call(self, n, st):
         """f(..., **d) with d a dict of concrete string keys: the entries are passed as keyword arguments"""
+        g = self._map_as_genexp(n, st)
+        if g is not None:
+            return self.ev(g, st)
         if not any(k.arg is None for k in n.keywords) or self.is_logger_call(n):
             return super().e_Call(n, st)
         out = []
